@@ -76,6 +76,7 @@ type FuncContract struct {
 	Aliases  bool // results may alias the arguments at arbitrary offsets (keep slice offsets symbolic)
 	ArithTrusted string
 	TrustedAccess map[string]string
+	Lemmas   []*Clause
 	Holds    []*Clause
 	AssumeAtLock []*Clause
 	DepVerified bool // dependency function verified from its own SSA
@@ -237,6 +238,14 @@ func (cs *Contracts) LoadContractFile(path, pkg string, repoStyle bool) error {
 			}
 			cur.Holds = append(cur.Holds, &Clause{Kind: kw, Expr: e, Src: rest, File: path, Line: lineNo})
 			cur.HasSpec = true
+		case "lemma":
+			// lemma[Cxx,label] E : a state-independent fact needed by the argument, proved as its own
+			// obligation in an arbitrary heap (attached to a function block only for bookkeeping)
+			e, err := ParseExpr(rest)
+			if err != nil {
+				return perr(err)
+			}
+			cur.Lemmas = append(cur.Lemmas, &Clause{Kind: kw, Props: props, Name: label, Expr: e, Src: rest, File: path, Line: lineNo})
 		case "assume-at-lock":
 			// a fact about the guarded state, assumed right after the function's first Lock; an
 			// assumption (listed in the evidence), e.g. an ownership argument that is not mechanised
@@ -690,6 +699,9 @@ func (cs *Contracts) LoadAll(repo, verif string) error {
 		}
 		for _, tr := range fc.Traces {
 			add(tr.Props)
+		}
+		for _, cl := range fc.Lemmas {
+			add(cl.Props)
 		}
 	}
 	am, _ := filepath.Glob(filepath.Join(verif, "contracts", "assumed", "*.contract"))
